@@ -30,6 +30,7 @@ type genState struct {
 	uid     int
 	shared  int
 	maxDep  int
+	store   bool
 	units   [][]int // key paths of every node generated so far (for designations)
 	subs    [][]int // key paths of sub graph nodes
 	lambdas [][]int
@@ -99,13 +100,20 @@ func (g *genState) stages(depth int, path []int, sub bool) [][]*GNode {
 				}
 				n.Fails = r.Chance(1, 18)
 				n.SelfCB = n.Natives == 1 && r.Chance(1, 8)
+				if g.store && r.Chance(1, 7) {
+					// asks for an interrupt (compose.InterruptAndRerun) the first one or two times it executes
+					n.Intr = 1
+					if r.Chance(1, 4) {
+						n.Intr = 2
+					}
+				}
 				n.Chunks = r.Range(1, 3)
 				if w > 1 {
 					n.DelayUs = r.Intn(400)
 				}
 				g.lambdas = append(g.lambdas, p)
 				// the same *Lambda object under two node keys (different stages of one graph)
-				if !n.Fails && !n.SelfCB {
+				if !n.Fails && !n.SelfCB && n.Intr == 0 {
 					if sharedCand == nil {
 						if r.Chance(1, 6) {
 							sharedCand = n
@@ -147,7 +155,22 @@ func genGraph(r *lib.Rng, tier string) *Case {
 	if tier == "thorough" || r.Chance(1, 6) {
 		g.maxDep = 2
 	}
+	// half of the graphs are compiled with a checkpoint store and called with a checkpoint id;
+	// in those some lambdas ask for an interrupt, and an interrupted run is resumed until it ends
+	c.Store = r.Chance(1, 2)
+	g.store = c.Store
 	c.Stages = g.stages(0, nil, false)
+	if c.Store && totalIntr(c) == 0 && r.Chance(2, 3) {
+		var cands []*GNode
+		allNodes(c.Stages, func(n *GNode, _ int) {
+			if n.Kind == "lambda" && !n.Conv && n.Shared == 0 {
+				cands = append(cands, n)
+			}
+		}, 0)
+		if len(cands) > 0 {
+			cands[r.Intn(len(cands))].Intr = 1
+		}
+	}
 	c.Paradigm = []string{"invoke", "stream", "collect", "transform"}[r.Intn(4)]
 	c.Dag = r.Chance(1, 3)
 	// the same layered shape through the Chain API when it fits (no two parallel stages in a
@@ -239,8 +262,49 @@ type bodyRec struct {
 
 type runRec struct {
 	mu     sync.Mutex
-	execs  map[int][]bodyRec
+	execs  map[int][]bodyRec // executions in the current run of a run sequence
 	shared map[int]int
+	count  map[int]int // executions of a unit over the whole run sequence (decides interrupts)
+}
+
+func newRunRec() *runRec {
+	return &runRec{execs: map[int][]bodyRec{}, shared: map[int]int{}, count: map[int]int{}}
+}
+
+// nextRun forgets the per-run execution records (the counters that decide interrupts stay).
+func (rr *runRec) nextRun() {
+	rr.mu.Lock()
+	rr.execs = map[int][]bodyRec{}
+	rr.mu.Unlock()
+}
+
+// interrupts says whether this execution of the unit asks for an interrupt (the first intr executions do).
+func (rr *runRec) interrupts(uid, intr int) bool {
+	rr.mu.Lock()
+	defer rr.mu.Unlock()
+	k := rr.count[uid]
+	rr.count[uid]++
+	return k < intr
+}
+
+// memStore is a compose.CheckPointStore.
+type memStore struct {
+	mu sync.Mutex
+	m  map[string][]byte
+}
+
+func (s *memStore) Get(_ context.Context, id string) ([]byte, bool, error) {
+	s.mu.Lock()
+	defer s.mu.Unlock()
+	v, ok := s.m[id]
+	return v, ok, nil
+}
+
+func (s *memStore) Set(_ context.Context, id string, cp []byte) error {
+	s.mu.Lock()
+	defer s.mu.Unlock()
+	s.m[id] = cp
+	return nil
 }
 
 func (rr *runRec) body(n *GNode, in vmap) (vmap, error) {
@@ -256,6 +320,15 @@ func (rr *runRec) body(n *GNode, in vmap) (vmap, error) {
 		rr.shared[n.Shared]++
 	}
 	rr.mu.Unlock()
+	if rr.interrupts(n.UID, n.Intr) {
+		rr.mu.Lock()
+		rr.execs[id] = append(rr.execs[id], bodyRec{In: inS, Failed: true})
+		rr.mu.Unlock()
+		if n.UID%2 == 0 {
+			return nil, fmt.Errorf("node %d asks for a rerun: %w", n.UID, compose.InterruptAndRerun)
+		}
+		return nil, compose.InterruptAndRerun
+	}
 	if n.Fails {
 		rr.mu.Lock()
 		rr.execs[id] = append(rr.execs[id], bodyRec{In: inS, Failed: true})
@@ -534,6 +607,9 @@ func call(r compose.Runnable[vmap, vmap], paradigm string, inChunks int, opts ..
 		if os.Getenv("C10_DEBUG") != "" {
 			fmt.Fprintln(os.Stderr, "C10_DEBUG error:", err)
 		}
+		if _, ok := compose.ExtractInterruptInfo(err); ok {
+			return "intr"
+		}
 		return "err"
 	}
 	return "ok:" + render(out)
@@ -543,10 +619,145 @@ func call(r compose.Runnable[vmap, vmap], paradigm string, inChunks int, opts ..
 
 type expectation struct {
 	execs  map[int]int   // uid -> number of executions of the unit
-	failed map[int]bool  // uid -> the unit ends with an error
+	failed map[int]bool  // uid -> the unit ends with an error (a failure or an interrupt)
 	paths  map[int][]int // uid -> key path from the top graph ([] for the graph itself)
 	kind   map[int]string
 	node   map[int]*GNode
+	ps     *planSt
+}
+
+func newExpectation(ps *planSt) *expectation {
+	return &expectation{execs: map[int]int{}, failed: map[int]bool{}, paths: map[int][]int{0: {}},
+		kind: map[int]string{0: "graph"}, node: map[int]*GNode{}, ps: ps}
+}
+
+// planSt is where a run sequence (a run, and the runs that resume it after an interrupt) stands:
+// how many more executions of a unit will ask for an interrupt, which nodes completed in an
+// earlier run of the sequence (they are not executed again).
+type planSt struct {
+	left map[int]int
+	done map[int]bool
+}
+
+const (
+	outOK = iota
+	outFail
+	outIntr
+)
+
+func newPlan(c *Case) *planSt {
+	ps := &planSt{left: map[int]int{}, done: map[int]bool{}}
+	allNodes(c.Stages, func(n *GNode, _ int) {
+		if n.Intr > 0 {
+			ps.left[n.UID] = n.Intr
+		}
+		for _, cl := range n.Calls {
+			if cl.Intr > 0 {
+				ps.left[cl.UID] = cl.Intr
+			}
+		}
+	}, 0)
+	return ps
+}
+
+func totalIntr(c *Case) int {
+	t := 0
+	for _, k := range newPlan(c).left {
+		t += k
+	}
+	return t
+}
+
+// outcome of the execution of a node in the next run: ok, failed, or interrupted
+func (ps *planSt) outcome(n *GNode, opts []GOpt) int {
+	if ps.done[n.UID] {
+		return outOK
+	}
+	switch n.Kind {
+	case "lambda":
+		if ps.left[n.UID] > 0 {
+			return outIntr
+		}
+		if n.Fails {
+			return outFail
+		}
+	case "sub":
+		return ps.graphOutcome(n.Stages, subOpts(n.Key, opts))
+	case "tools":
+		// ToolsNode reports the error of the first call (in the order of the message) that has one
+		for _, cl := range n.Calls {
+			if ps.left[cl.UID] > 0 {
+				return outIntr
+			}
+			if cl.Fails {
+				return outFail
+			}
+		}
+	}
+	return outOK
+}
+
+// a stage in which a node fails fails the run; otherwise a stage in which a node (or a nested
+// graph) is interrupted interrupts it after the whole stage
+func (ps *planSt) graphOutcome(stages [][]*GNode, opts []GOpt) int {
+	if !optsOKDeep(stages, opts) {
+		return outFail
+	}
+	for _, st := range stages {
+		f, i := false, false
+		for _, n := range st {
+			switch ps.outcome(n, opts) {
+			case outFail:
+				f = true
+			case outIntr:
+				i = true
+			}
+		}
+		if f {
+			return outFail
+		}
+		if i {
+			return outIntr
+		}
+	}
+	return outOK
+}
+
+// advance: the run (whose outcome is outIntr) has been interrupted; what the resumed run starts from
+func (ps *planSt) advance(stages [][]*GNode, opts []GOpt) {
+	for _, st := range stages {
+		intr := false
+		for _, n := range st {
+			if ps.outcome(n, opts) == outIntr {
+				intr = true
+			}
+		}
+		if !intr {
+			for _, n := range st {
+				ps.done[n.UID] = true
+			}
+			continue
+		}
+		for _, n := range st {
+			if ps.outcome(n, opts) != outIntr {
+				ps.done[n.UID] = true
+				continue
+			}
+			switch n.Kind {
+			case "lambda":
+				ps.left[n.UID]--
+			case "sub":
+				ps.advance(n.Stages, subOpts(n.Key, opts))
+			case "tools": // the whole node is executed again: every call once more
+				for _, cl := range n.Calls {
+					if ps.left[cl.UID] > 0 {
+						ps.left[cl.UID]--
+					}
+				}
+			}
+		}
+		return
+	}
 }
 
 func optsOK(stages [][]*GNode, opts []GOpt) bool {
@@ -598,49 +809,69 @@ func subOpts(key int, opts []GOpt) []GOpt {
 	return out
 }
 
-func (x *expectation) graph(uid int, stages [][]*GNode, opts []GOpt, path []int) bool {
+// graph: the units of one run of the graph (the next run of the sequence), returns its outcome
+func (x *expectation) graph(uid int, stages [][]*GNode, opts []GOpt, path []int) int {
 	x.execs[uid]++
 	if !optsOKDeep(stages, opts) {
 		x.failed[uid] = true
-		return true
+		return outFail
 	}
 	for _, st := range stages {
-		stageFailed := false
+		f, i := false, false
+		note := func(o int) {
+			switch o {
+			case outFail:
+				f = true
+			case outIntr:
+				i = true
+			}
+		}
 		for _, n := range st {
 			p := append(append([]int{}, path...), n.Key)
 			x.paths[n.UID], x.kind[n.UID], x.node[n.UID] = p, n.Kind, n
+			if x.ps.done[n.UID] {
+				x.kind[n.UID] = "done" // completed in an earlier run of the sequence: not executed
+				continue
+			}
 			switch n.Kind {
 			case "lambda":
 				x.execs[n.UID]++
-				if n.Fails {
+				o := x.ps.outcome(n, opts)
+				if o != outOK {
 					x.failed[n.UID] = true
-					stageFailed = true
 				}
+				note(o)
 			case "sub":
-				if x.graph(n.UID, n.Stages, subOpts(n.Key, opts), p) {
-					stageFailed = true
-				}
+				note(x.graph(n.UID, n.Stages, subOpts(n.Key, opts), p))
 			case "tools":
 				// the ToolsNode and every tool call of the message execute once; the calls are
-				// addressed through the ToolsNode (same node path); a failed call fails the node
+				// addressed through the ToolsNode (same node path); the first call (in the order of
+				// the message) that fails or asks for an interrupt decides how the node ends
 				x.execs[n.UID]++
 				for _, c := range n.Calls {
 					x.execs[c.UID]++
 					x.paths[c.UID], x.kind[c.UID] = p, "call"
-					if c.Fails {
+					if x.ps.left[c.UID] > 0 || c.Fails {
 						x.failed[c.UID] = true
-						x.failed[n.UID] = true
-						stageFailed = true
 					}
 				}
+				o := x.ps.outcome(n, opts)
+				if o != outOK {
+					x.failed[n.UID] = true
+				}
+				note(o)
 			}
 		}
-		if stageFailed {
+		if f {
 			x.failed[uid] = true
-			return true
+			return outFail
+		}
+		if i {
+			x.failed[uid] = true
+			return outIntr
 		}
 	}
-	return false
+	return outOK
 }
 
 func allNodes(stages [][]*GNode, f func(n *GNode, depth int), depth int) {
@@ -700,12 +931,47 @@ func multiplicity(c *Case, h int, path []int) int {
 
 // ---------------------------------------------------------------- runner
 
-type graphObs struct {
-	Class    string   `json:"class"` // ok | err | panic | hang
-	Detail   string   `json:"detail,omitempty"`
+const modelHasRuns = true
+
+type runObs struct {
 	Result   string   `json:"result"`
 	Baseline string   `json:"baseline"`
 	Events   [][3]int `json:"events"` // (handler, timing, run info) in the order of invocation
+}
+
+type graphObs struct {
+	Class  string   `json:"class"` // ok | err | intr (the last run) | panic | hang
+	Detail string   `json:"detail,omitempty"`
+	Runs   []runObs `json:"runs"` // a run and the runs that resume it after an interrupt
+}
+
+// oneRun is what one run of a run sequence left behind.
+type oneRun struct {
+	result string
+	evts   []*evt
+	execs  map[int][]bodyRec
+}
+
+// expectedEvents: how many handler invocations the run is expected to produce (used only to
+// know when the goroutines a run left behind have finished: the run is given time until that
+// many events are there, never less than the settle period)
+func expectedEvents(c *Case, x *expectation) int {
+	total := 0
+	for uid := range x.paths {
+		if x.kind[uid] == "pass" || x.kind[uid] == "done" {
+			continue
+		}
+		for _, sp := range c.Handlers {
+			m := multiplicity(c, sp.ID, x.paths[uid]) * x.execs[uid]
+			if m == 0 {
+				continue
+			}
+			if needsAll(sp) {
+				total += 2 * m
+			}
+		}
+	}
+	return total
 }
 
 func runGraph(c *Case) lib.Result {
@@ -730,37 +996,58 @@ func runGraph(c *Case) lib.Result {
 		}
 		return out
 	}
-	var rr *runRec
-	class, detail := watchdog(30*time.Second, func() {
-		copts := []compose.GraphCompileOption{compose.WithGraphName(unitName(0))}
-		if c.Dag {
-			copts = append(copts, compose.WithNodeTriggerMode(compose.AllPredecessor))
+	maxRuns := 1
+	if c.Store {
+		maxRuns = totalIntr(c) + 2
+	}
+	var runs []oneRun
+	var baseline []string
+	class, detail := watchdog(60*time.Second, func() {
+		mkOpts := func() []compose.GraphCompileOption {
+			copts := []compose.GraphCompileOption{compose.WithGraphName(unitName(0))}
+			if c.Dag {
+				copts = append(copts, compose.WithNodeTriggerMode(compose.AllPredecessor))
+			}
+			if c.Store {
+				copts = append(copts, compose.WithCheckPointStore(&memStore{m: map[string][]byte{}}))
+			}
+			return copts
 		}
-		// baseline: the same graph without any handler
+		// baseline: the same graph, the same sequence of runs, without any handler
 		callbacks.InitCallbackHandlers(nil)
-		r0 := &runRec{execs: map[int][]bodyRec{}, shared: map[int]int{}}
+		r0 := newRunRec()
 		g0, err := r0.buildTop(c)
 		if err != nil {
 			panic("harness: graph does not build: " + err.Error())
 		}
-		run0, err := g0.Compile(context.Background(), copts...)
+		run0, err := g0.Compile(context.Background(), mkOpts()...)
 		if err != nil {
 			panic("harness: graph does not compile: " + err.Error())
 		}
-		obs.Baseline = call(run0, c.Paradigm, c.InChunks)
+		var cpOpt []compose.Option
+		if c.Store {
+			cpOpt = append(cpOpt, compose.WithCheckPointID("cp"))
+		}
+		for k := 0; k < maxRuns; k++ {
+			r := call(run0, c.Paradigm, c.InChunks, cpOpt...)
+			baseline = append(baseline, r)
+			if r != "intr" {
+				break
+			}
+		}
 
-		rr = &runRec{execs: map[int][]bodyRec{}, shared: map[int]int{}}
+		rr := newRunRec()
 		g1, err := rr.buildTop(c)
 		if err != nil {
 			panic("harness: graph does not build: " + err.Error())
 		}
-		run1, err := g1.Compile(context.Background(), copts...)
+		run1, err := g1.Compile(context.Background(), mkOpts()...)
 		if err != nil {
 			panic("harness: graph does not compile: " + err.Error())
 		}
 		installGlobals(c, hs)
 		defer callbacks.InitCallbackHandlers(nil)
-		var opts []compose.Option
+		opts := append([]compose.Option{}, cpOpt...)
 		for _, o := range c.Opts {
 			op := compose.WithCallbacks(toH(o.Hs)...)
 			if len(o.Paths) > 0 {
@@ -788,9 +1075,46 @@ func runGraph(c *Case) lib.Result {
 			}
 			opts = append(opts, op)
 		}
-		obs.Result = call(run1, c.Paradigm, c.InChunks, opts...)
-		if !waitWG(&s.wg, 10*time.Second) {
-			fail("graph-stream", "a handler's copy of a stream payload never ended")
+		ps := newPlan(c)
+		for k := 0; k < maxRuns; k++ {
+			rr.nextRun()
+			result := call(run1, c.Paradigm, c.InChunks, opts...)
+			if !waitWG(&s.wg, 10*time.Second) {
+				fail("graph-stream", "run %d: a handler's copy of a stream payload never ended", k)
+			}
+			if c.Eager {
+				// eager task collection returns as soon as one task has failed: the other tasks of
+				// that step are still running; give them time to finish
+				x := newExpectation(ps)
+				x.graph(0, c.Stages, c.Opts, nil)
+				want := expectedEvents(c, x)
+				deadline := time.Now().Add(5 * time.Second)
+				for time.Now().Before(deadline) {
+					s.mu.Lock()
+					n := len(s.evts)
+					s.mu.Unlock()
+					if n >= want {
+						break
+					}
+					time.Sleep(2 * time.Millisecond)
+				}
+				time.Sleep(3 * time.Millisecond)
+				waitWG(&s.wg, 10*time.Second)
+			}
+			s.mu.Lock()
+			evts := s.evts
+			s.evts = nil
+			s.mu.Unlock()
+			rr.mu.Lock()
+			execs := rr.execs
+			rr.mu.Unlock()
+			runs = append(runs, oneRun{result: result, evts: evts, execs: execs})
+			if result != "intr" {
+				break
+			}
+			if ps.graphOutcome(c.Stages, c.Opts) == outIntr {
+				ps.advance(c.Stages, c.Opts)
+			}
 		}
 	})
 	if class != "" {
@@ -800,182 +1124,81 @@ func runGraph(c *Case) lib.Result {
 		res.Tags = []string{"kind:graph", "class:" + class}
 		return res
 	}
-	obs.Class = "ok"
-	if obs.Result == "err" {
-		obs.Class = "err"
-	}
+	obs.Class = strings.SplitN(runs[len(runs)-1].result, ":", 2)[0]
 
-	// ---- direct oracle
-	x := &expectation{execs: map[int]int{}, failed: map[int]bool{}, paths: map[int][]int{0: {}},
-		kind: map[int]string{0: "graph"}, node: map[int]*GNode{}}
-	topFailed := x.graph(0, c.Stages, c.Opts, nil)
-	x0 := &expectation{execs: map[int]int{}, failed: map[int]bool{}, paths: map[int][]int{0: {}},
-		kind: map[int]string{0: "graph"}, node: map[int]*GNode{}}
-	// a bad designation legitimately fails the run that carries the options; otherwise the
-	// handlers (and what they do with their stream copies) must not change the data flow
-	if x0.graph(0, c.Stages, nil, nil) == topFailed && obs.Result != obs.Baseline {
-		fail("graph-dataflow", "result with handlers %q differs from the run without handlers %q", obs.Result, obs.Baseline)
-	}
-	if topFailed != (obs.Result == "err") {
-		fail("graph-exec", "run outcome %q, the case says failed=%v", obs.Result, topFailed)
-	}
+	// ---- direct oracle, run by run
 	specs := map[int]HSpec{}
 	for _, sp := range c.Handlers {
 		specs[sp.ID] = sp
 	}
-	s.mu.Lock()
-	evts := append([]*evt(nil), s.evts...)
-	s.mu.Unlock()
-	type hk struct {
-		h    int
-		name string
-	}
-	cnt := map[hk][5]int{}
-	known := map[string]int{}
-	for uid := range x.paths {
-		known[unitName(uid)] = uid
-	}
-	sawEnd := map[string]bool{}
-	for _, e := range evts {
-		// pairing in time: every start invocation of a unit precedes its end / error invocations
-		if e.T == 0 || e.T == 3 {
-			if sawEnd[e.Name] {
-				fail("graph-pairing", "handler %d: start of unit %s after the unit's end was reported", e.H, e.Name)
+	ps := newPlan(c)
+	var runTerms []string
+	nIntrRuns := 0
+	for k := 0; ; k++ {
+		x := newExpectation(ps)
+		out := x.graph(0, c.Stages, c.Opts, nil)
+		x0 := newExpectation(ps)
+		out0 := x0.graph(0, c.Stages, nil, nil)
+		if k >= len(runs) {
+			fail("graph-exec", "the sequence has %d runs, the case says there is a run %d (the run before it was interrupted)", len(runs), k)
+			break
+		}
+		run := runs[k]
+		ro := runObs{Result: run.result}
+		if k < len(baseline) {
+			ro.Baseline = baseline[k]
+		}
+		pre := ""
+		if c.Store {
+			pre = fmt.Sprintf("run %d: ", k)
+		}
+		// a bad designation legitimately fails the run that carries the options; otherwise the
+		// handlers (and what they do with their stream copies) must not change the data flow
+		if out0 == out && ro.Result != ro.Baseline {
+			fail("graph-dataflow", pre+"result with handlers %q differs from the run without handlers %q", ro.Result, ro.Baseline)
+		}
+		wantClass := []string{"ok", "err", "intr"}[out]
+		if gotClass := strings.SplitN(run.result, ":", 2)[0]; gotClass != wantClass {
+			fail("graph-exec", pre+"run outcome %q, the case says %s", run.result, wantClass)
+		}
+		checkRun(c, x, run, specs, ro.Result, func(sg, f string, a ...any) { fail(sg, pre+f, a...) })
+
+		// observation for the model: per unit (run info) the sequence of (handler, timing) in
+		// the order of invocation; units in ascending order
+		for _, e := range run.evts {
+			ro.Events = append(ro.Events, [3]int{e.H, e.T, parseInfo(e.Name)})
+		}
+		sort.SliceStable(ro.Events, func(i, j int) bool { return ro.Events[i][2] < ro.Events[j][2] })
+		perUnit := map[int][]string{}
+		var infos []int
+		for _, e := range ro.Events {
+			if _, ok := perUnit[e[2]]; !ok {
+				infos = append(infos, e[2])
 			}
-		} else {
-			sawEnd[e.Name] = true
+			perUnit[e[2]] = append(perUnit[e[2]], fmt.Sprintf("(%d, %d)", e[0], e[1]))
 		}
-		k := hk{e.H, e.Name}
-		a := cnt[k]
-		a[e.T]++
-		cnt[k] = a
-		uid, ok := known[e.Name]
-		if !ok {
-			fail("graph-wrongnode", "handler %d invoked (timing %d) with run info name %q which is no unit of this run", e.H, e.T, e.Name)
-			continue
+		sort.Ints(infos)
+		var evs []string
+		for _, i := range infos {
+			evs = append(evs, fmt.Sprintf("(%d, [%s])", i, strings.Join(perUnit[i], "; ")))
 		}
-		if !needsT(specs[e.H], e.T) {
-			fail("graph-timing", "handler %d invoked with timing %d it does not ask for", e.H, e.T)
-		}
-		wantComp := "Lambda"
-		switch x.kind[uid] {
-		case "graph", "sub":
-			wantComp = "Graph"
-			if uid == 0 && c.Chain {
-				wantComp = "Chain"
+		runTerms = append(runTerms, "["+strings.Join(evs, "; ")+"]")
+		obs.Runs = append(obs.Runs, ro)
+
+		if out != outIntr {
+			if k+1 < len(runs) {
+				fail("graph-exec", "the sequence has %d runs, the case says run %d is the last", len(runs), k)
 			}
-		case "tools":
-			wantComp = "ToolsNode"
-		case "call":
-			wantComp = "Tool"
+			break
 		}
-		if e.Comp != wantComp {
-			fail("graph-wrongnode", "handler %d unit %s: component %q, want %q", e.H, e.Name, e.Comp, wantComp)
-		}
-		// payload: what the unit itself consumed / produced
-		if !e.Full {
-			continue
-		}
-		if n := x.node[uid]; n != nil && n.Kind == "lambda" && n.Shared == 0 {
-			rr.mu.Lock()
-			recs := rr.execs[uid]
-			rr.mu.Unlock()
-			if len(recs) == 1 {
-				if (e.T == 0 || e.T == 3) && e.Payload != recs[0].In {
-					fail("graph-payload", "handler %d unit %s start payload %q, the node consumed %q", e.H, e.Name, e.Payload, recs[0].In)
-				}
-				if (e.T == 1 || e.T == 4) && e.Payload != recs[0].Out {
-					fail("graph-payload", "handler %d unit %s end payload %q, the node produced %q", e.H, e.Name, e.Payload, recs[0].Out)
-				}
-			}
-		}
-		if uid == 0 {
-			if (e.T == 0 || e.T == 3) && e.Payload != "in=abcdef" {
-				fail("graph-payload", "handler %d graph start payload %q, want \"in=abcdef\"", e.H, e.Payload)
-			}
-			if (e.T == 1 || e.T == 4) && "ok:"+e.Payload != obs.Result {
-				fail("graph-payload", "handler %d graph end payload %q, result %q", e.H, e.Payload, obs.Result)
-			}
-		}
-	}
-	uids := make([]int, 0, len(x.paths))
-	for uid := range x.paths {
-		uids = append(uids, uid)
-	}
-	sort.Ints(uids)
-	for _, uid := range uids {
-		if x.kind[uid] == "pass" {
-			for _, sp := range c.Handlers {
-				if a := cnt[hk{sp.ID, unitName(uid)}]; a != [5]int{} {
-					fail("graph-wrongnode", "handler %d invoked for passthrough node %s", sp.ID, unitName(uid))
-				}
-			}
-			continue
-		}
-		if n := x.node[uid]; n != nil && n.Kind == "lambda" && n.Shared == 0 {
-			rr.mu.Lock()
-			got := len(rr.execs[uid])
-			rr.mu.Unlock()
-			if got != x.execs[uid] {
-				fail("graph-exec", "node %s executed %d times, the case says %d", unitName(uid), got, x.execs[uid])
-			}
-		}
-		if x.kind[uid] == "call" {
-			rr.mu.Lock()
-			got := len(rr.execs[uid])
-			rr.mu.Unlock()
-			if got != x.execs[uid] {
-				fail("graph-exec", "tool call %s executed %d times, the case says %d", unitName(uid), got, x.execs[uid])
-			}
-		}
-		for _, sp := range c.Handlers {
-			a := cnt[hk{sp.ID, unitName(uid)}]
-			starts, ends, errs := a[0]+a[3], a[1]+a[4], a[2]
-			want := multiplicity(c, sp.ID, x.paths[uid]) * x.execs[uid]
-			bad := false
-			if needsAll(sp) {
-				bad = starts != want || ends+errs != want
-			} else {
-				bad = starts > want || ends+errs > want
-			}
-			if x.failed[uid] && ends > 0 || !x.failed[uid] && errs > 0 {
-				bad = true
-			}
-			if bad {
-				sg := "graph-pairing"
-				if want == 0 {
-					sg = "graph-wrongnode"
-				}
-				fail(sg, "handler %d unit %s: %d start / %d end / %d error events, want %d of each side (attached x%d, unit executed %dx, fails=%v)",
-					sp.ID, unitName(uid), starts, ends, errs, want, multiplicity(c, sp.ID, x.paths[uid]), x.execs[uid], x.failed[uid])
-			}
-		}
+		nIntrRuns++
+		ps.advance(c.Stages, c.Opts)
 	}
 	if len(oracle) > 0 {
 		res.Oracle = strings.Join(oracle, " | ")
 		res.Sig = sig
 	}
 
-	// ---- observation for the model: per unit (run info) the sequence of (handler, timing)
-	// in the order of invocation; units in ascending order
-	for _, e := range evts {
-		obs.Events = append(obs.Events, [3]int{e.H, e.T, parseInfo(e.Name)})
-	}
-	// canonical: grouped by unit, within a unit in the order of invocation
-	sort.SliceStable(obs.Events, func(i, j int) bool { return obs.Events[i][2] < obs.Events[j][2] })
-	perUnit := map[int][]string{}
-	var infos []int
-	for _, e := range obs.Events {
-		if _, ok := perUnit[e[2]]; !ok {
-			infos = append(infos, e[2])
-		}
-		perUnit[e[2]] = append(perUnit[e[2]], fmt.Sprintf("(%d, %d)", e[0], e[1]))
-	}
-	sort.Ints(infos)
-	var evs []string
-	for _, i := range infos {
-		evs = append(evs, fmt.Sprintf("(%d, [%s])", i, strings.Join(perUnit[i], "; ")))
-	}
 	var optT []string
 	nDes := 0
 	for _, o := range c.Opts {
@@ -984,8 +1207,19 @@ func runGraph(c *Case) lib.Result {
 			nDes++
 		}
 	}
-	res.CoqTerm = fmt.Sprintf("CaseGraph %s %s\n  [%s]\n  %s 0 0\n  %s\n  [%s]", nlist(c.Globals), coqNeeds(c.Handlers),
-		strings.Join(optT, "; "), lib.CoqBool(c.Paradigm != "invoke"), coqStages(c.Stages), strings.Join(evs, "; "))
+	if c.Store && !modelHasRuns {
+		res.CoqTerm = "" // stopgap while Corr/C10.v has no CaseRuns
+	} else if c.Store {
+		res.CoqTerm = fmt.Sprintf("CaseRuns %s %s\n  [%s]\n  %s 0 0\n  %s\n  [%s]", nlist(c.Globals), coqNeeds(c.Handlers),
+			strings.Join(optT, "; "), lib.CoqBool(c.Paradigm != "invoke"), coqRStages(c.Stages), strings.Join(runTerms, ";\n   "))
+	} else {
+		first := "[]"
+		if len(runTerms) > 0 {
+			first = runTerms[0]
+		}
+		res.CoqTerm = fmt.Sprintf("CaseGraph %s %s\n  [%s]\n  %s 0 0\n  %s\n  %s", nlist(c.Globals), coqNeeds(c.Handlers),
+			strings.Join(optT, "; "), lib.CoqBool(c.Paradigm != "invoke"), coqStages(c.Stages), first)
+	}
 
 	// ---- distribution
 	nNodes, maxPar, depth, nShared, nSub := 0, 0, 0, 0, 0
@@ -1032,7 +1266,9 @@ func runGraph(c *Case) lib.Result {
 	}
 	res.Tags = []string{"kind:graph", "paradigm:" + c.Paradigm, "nodes:" + bucket(nNodes), fmt.Sprintf("parallel:%d", maxPar),
 		fmt.Sprintf("nesting:%d", depth), fmt.Sprintf("opts-undesignated:%d", len(c.Opts)-nDes), fmt.Sprintf("opts-designated:%d", nDes),
-		fmt.Sprintf("globals:%d", len(c.Globals)), "class:" + obs.Class, fmt.Sprintf("dag:%v", c.Dag), fmt.Sprintf("chain:%v", c.Chain)}
+		fmt.Sprintf("globals:%d", len(c.Globals)), "class:" + obs.Class, fmt.Sprintf("dag:%v", c.Dag), fmt.Sprintf("chain:%v", c.Chain),
+		fmt.Sprintf("store:%v", c.Store), fmt.Sprintf("eager:%v", c.Eager), fmt.Sprintf("runs:%d", len(runs)),
+		fmt.Sprintf("interrupted-runs:%d", nIntrRuns)}
 	if nShared > 0 {
 		res.Tags = append(res.Tags, "shared-lambda")
 	}
@@ -1050,6 +1286,139 @@ func runGraph(c *Case) lib.Result {
 		res.Tags = append(res.Tags, "bad-designation")
 	}
 	return res
+}
+
+// checkRun: the property on the events of one run (x = the units the run executes)
+func checkRun(c *Case, x *expectation, run oneRun, specs map[int]HSpec, result string, fail func(sg, f string, a ...any)) {
+	type hk struct {
+		h    int
+		name string
+	}
+	cnt := map[hk][5]int{}
+	known := map[string]int{}
+	for uid := range x.paths {
+		known[unitName(uid)] = uid
+	}
+	sawEnd := map[string]bool{}
+	for _, e := range run.evts {
+		// pairing in time: every start invocation of a unit precedes its end / error invocations
+		if e.T == 0 || e.T == 3 {
+			if sawEnd[e.Name] {
+				fail("graph-pairing", "handler %d: start of unit %s after the unit's end was reported", e.H, e.Name)
+			}
+		} else {
+			sawEnd[e.Name] = true
+		}
+		k := hk{e.H, e.Name}
+		a := cnt[k]
+		a[e.T]++
+		cnt[k] = a
+		uid, ok := known[e.Name]
+		if !ok {
+			fail("graph-wrongnode", "handler %d invoked (timing %d) with run info name %q which is no unit of this run", e.H, e.T, e.Name)
+			continue
+		}
+		if !needsT(specs[e.H], e.T) {
+			fail("graph-timing", "handler %d invoked with timing %d it does not ask for", e.H, e.T)
+		}
+		wantComp := "Lambda"
+		switch x.kind[uid] {
+		case "graph", "sub":
+			wantComp = "Graph"
+			if uid == 0 && c.Chain {
+				wantComp = "Chain"
+			}
+			if c.Eager {
+				wantComp = "Workflow"
+			}
+		case "tools":
+			wantComp = "ToolsNode"
+		case "call":
+			wantComp = "Tool"
+		}
+		if e.Comp != wantComp {
+			fail("graph-wrongnode", "handler %d unit %s: component %q, want %q", e.H, e.Name, e.Comp, wantComp)
+		}
+		// payload: what the unit itself consumed / produced
+		if !e.Full {
+			continue
+		}
+		if n := x.node[uid]; n != nil && n.Kind == "lambda" && n.Shared == 0 {
+			recs := run.execs[uid]
+			if len(recs) == 1 {
+				if (e.T == 0 || e.T == 3) && e.Payload != recs[0].In {
+					fail("graph-payload", "handler %d unit %s start payload %q, the node consumed %q", e.H, e.Name, e.Payload, recs[0].In)
+				}
+				if (e.T == 1 || e.T == 4) && e.Payload != recs[0].Out {
+					fail("graph-payload", "handler %d unit %s end payload %q, the node produced %q", e.H, e.Name, e.Payload, recs[0].Out)
+				}
+			}
+		}
+		if uid == 0 {
+			if (e.T == 0 || e.T == 3) && e.Payload != "in=abcdef" {
+				fail("graph-payload", "handler %d graph start payload %q, want \"in=abcdef\"", e.H, e.Payload)
+			}
+			if (e.T == 1 || e.T == 4) && "ok:"+e.Payload != result {
+				fail("graph-payload", "handler %d graph end payload %q, result %q", e.H, e.Payload, result)
+			}
+		}
+	}
+	uids := make([]int, 0, len(x.paths))
+	for uid := range x.paths {
+		uids = append(uids, uid)
+	}
+	sort.Ints(uids)
+	for _, uid := range uids {
+		if x.kind[uid] == "pass" || x.kind[uid] == "done" {
+			for _, sp := range c.Handlers {
+				if a := cnt[hk{sp.ID, unitName(uid)}]; a != [5]int{} {
+					what := "passthrough node"
+					if x.kind[uid] == "done" {
+						what = "node (completed before the interrupt, not executed in this run)"
+					}
+					fail("graph-wrongnode", "handler %d invoked for %s %s", sp.ID, what, unitName(uid))
+				}
+			}
+			if x.kind[uid] == "done" {
+				if got := len(run.execs[uid]); got != 0 {
+					fail("graph-exec", "node %s executed %d times in this run, it had completed before the interrupt", unitName(uid), got)
+				}
+			}
+			continue
+		}
+		if n := x.node[uid]; n != nil && n.Kind == "lambda" && n.Shared == 0 {
+			if got := len(run.execs[uid]); got != x.execs[uid] {
+				fail("graph-exec", "node %s executed %d times, the case says %d", unitName(uid), got, x.execs[uid])
+			}
+		}
+		if x.kind[uid] == "call" {
+			if got := len(run.execs[uid]); got != x.execs[uid] {
+				fail("graph-exec", "tool call %s executed %d times, the case says %d", unitName(uid), got, x.execs[uid])
+			}
+		}
+		for _, sp := range c.Handlers {
+			a := cnt[hk{sp.ID, unitName(uid)}]
+			starts, ends, errs := a[0]+a[3], a[1]+a[4], a[2]
+			want := multiplicity(c, sp.ID, x.paths[uid]) * x.execs[uid]
+			bad := false
+			if needsAll(sp) {
+				bad = starts != want || ends+errs != want
+			} else {
+				bad = starts > want || ends+errs > want
+			}
+			if x.failed[uid] && ends > 0 || !x.failed[uid] && errs > 0 {
+				bad = true
+			}
+			if bad {
+				sg := "graph-pairing"
+				if want == 0 {
+					sg = "graph-wrongnode"
+				}
+				fail(sg, "handler %d unit %s: %d start / %d end / %d error events, want %d of each side (attached x%d, unit executed %dx, ends with error=%v)",
+					sp.ID, unitName(uid), starts, ends, errs, want, multiplicity(c, sp.ID, x.paths[uid]), x.execs[uid], x.failed[uid])
+			}
+		}
+	}
 }
 
 func coqStages(stages [][]*GNode) string {
@@ -1070,6 +1439,33 @@ func coqStages(stages [][]*GNode) string {
 					cs = append(cs, fmt.Sprintf("(%d, %d, %d, %s)", c.UID, c.UID, c.Natives&3, lib.CoqBool(c.Fails)))
 				}
 				ns = append(ns, fmt.Sprintf("GTools %d %d %d [%s]", n.UID, n.Key, n.UID, strings.Join(cs, "; ")))
+			}
+		}
+		sts = append(sts, "["+strings.Join(ns, "; ")+"]")
+	}
+	return "[" + strings.Join(sts, "; ") + "]"
+}
+
+// coqRStages: the run plan (Model/CallbacksResume.v): lambdas carry the number of executions that
+// ask for an interrupt before the node behaves as the case says
+func coqRStages(stages [][]*GNode) string {
+	var sts []string
+	for _, st := range stages {
+		var ns []string
+		for _, n := range st {
+			switch n.Kind {
+			case "lambda":
+				ns = append(ns, fmt.Sprintf("RLambda %d %d %d %d %s %d%%nat", n.UID, n.Key, n.UID, n.Natives, lib.CoqBool(n.Fails), n.Intr))
+			case "pass":
+				ns = append(ns, fmt.Sprintf("RPass %d %d", n.UID, n.Key))
+			case "sub":
+				ns = append(ns, fmt.Sprintf("RSub %d %d %d %s", n.UID, n.Key, n.UID, coqRStages(n.Stages)))
+			case "tools":
+				var cs []string
+				for _, c := range n.Calls {
+					cs = append(cs, fmt.Sprintf("(%d, %d, %d, %s, %d%%nat)", c.UID, c.UID, c.Natives&3, lib.CoqBool(c.Fails), c.Intr))
+				}
+				ns = append(ns, fmt.Sprintf("RTools %d %d %d [%s]", n.UID, n.Key, n.UID, strings.Join(cs, "; ")))
 			}
 		}
 		sts = append(sts, "["+strings.Join(ns, "; ")+"]")
